@@ -5,7 +5,8 @@
 For every mutant: one textual edit of a scratch copy of avocado_i2n/states/setup.py (/repo untouched), then
 harness/pygen_pxpolicy.py regenerates I2N/Extracted/GenPolicy.lean from the copy.  Expected: either the translation
 refuses (pygen.Unsupported), or `lake build I2N.Lemmas.PolicyGen` (the module that holds the proofs of
-getOne/setOne/unsetOne/checkOne_matches_source; push: I2N.Lemmas.PolicyGenPush) FAILS.  A mutant for which the build
+getOne/setOne/unsetOne/checkOne_matches_source; push, pop: I2N.Lemmas.PolicyGenPush; _state_check_chain:
+I2N.Lemmas.PolicyGenChain) FAILS.  A mutant for which the build
 succeeds SURVIVES = a hole.  The committed GenPolicy.lean is restored afterwards.
 """
 import os
@@ -77,6 +78,45 @@ MUTANTS = {
                   '        # restrict parametric objects of this type in the subroutine\n        composite_types = params_obj_type.split("/")\n        composite_names = params_obj_name.split("/")\n        for composite_type, composite_name in zip(composite_types, composite_names):\n            state_params[composite_type] = composite_name\n        state_params["states_chain"] = composite_types[-1]\n\n        state_params["set_state"]')]),
     "p2 push: default push_mode af -> ff": (
         "push", [('state_params.get("push_mode", "af")', 'state_params.get("push_mode", "ff")')]),
+    "p3 push: set_state written from set_state instead of push_state": (
+        "push", [('state_params["set_state"] = state_params["push_state"]', 'state_params["set_state"] = state_params["set_state"]')]),
+    "o1 pop: default of the get half ra -> ri": (
+        "pop", [('state_params.get("pop_mode", "ra")', 'state_params.get("pop_mode", "ri")')]),
+    "o2 pop: the unset half reads unset_mode instead of pop_mode": (
+        "pop", [('state_params.get("pop_mode", "fa")', 'state_params.get("unset_mode", "fa")')]),
+    "o3 pop: unset_states called before get_states": (
+        "pop", [('        get_states(state_params, env)\n\n        state_params["unset_state"] = state_params["pop_state"]',
+                 '        unset_states(state_params, env)\n\n        state_params["unset_state"] = state_params["pop_state"]'),
+                ('state_params.get("pop_mode", "fa")\n        unset_states(state_params, env)',
+                 'state_params.get("pop_mode", "fa")\n        get_states(state_params, env)')]),
+    "o4 pop: ROOTS guard dropped": (
+        "pop", [('        if state in ROOTS:\n            # cannot be done with root states\n            continue\n\n        # restrict parametric objects of this type in the subroutine\n        composite_types = params_obj_type.split("/")\n        composite_names = params_obj_name.split("/")\n        for composite_type, composite_name in zip(composite_types, composite_names):\n            state_params[composite_type] = composite_name\n        state_params["states_chain"] = composite_types[-1]\n\n        state_params["get_state"]',
+                 '        # restrict parametric objects of this type in the subroutine\n        composite_types = params_obj_type.split("/")\n        composite_names = params_obj_name.split("/")\n        for composite_type, composite_name in zip(composite_types, composite_names):\n            state_params[composite_type] = composite_name\n        state_params["states_chain"] = composite_types[-1]\n\n        state_params["get_state"]')]),
+    "o5 pop: unset_state key not written": (
+        "pop", [('        state_params["unset_state"] = state_params["pop_state"]\n', '')]),
+    "o6 pop: the unset half is skipped (second call dropped)": (
+        "pop", [('state_params.get("pop_mode", "fa")\n        unset_states(state_params, env)\n', 'state_params.get("pop_mode", "fa")\n')]),
+    "k1 chain: soft boot chosen for get instead of set": (
+        "chain", [('    if do == "set":\n        state_params["check_opts"] = "soft_boot=yes"', '    if do == "get":\n        state_params["check_opts"] = "soft_boot=yes"')]),
+    "k2 chain: else branch writes soft_boot=yes into check_opts": (
+        "chain", [('        state_params["check_opts"] = "soft_boot=no"', '        state_params["check_opts"] = "soft_boot=yes"')]),
+    "k3 chain: location test negated": (
+        "chain", [('    if state_params.get(f"{do}_location"):', '    if not state_params.get(f"{do}_location"):')]),
+    "k4 chain: show_location written under another key": (
+        "chain", [('        state_params["show_location"] = state_params[f"{do}_location"]', '        state_params["check_location"] = state_params[f"{do}_location"]')]),
+    "k5 chain: soft_boot key not written in the else branch": (
+        "chain", [('        state_params["soft_boot"] = "no"\n', '')]),
+    "k6 chain: check_state taken from the mode key": (
+        "chain", [('    state_params["check_state"] = state_params[f"{do}_state"]', '    state_params["check_state"] = state_params.get(f"{do}_mode", "")')]),
+    "k7 chain: names and types swapped in the restriction": (
+        "chain", [('    for composite_type, composite_name in zip(composite_types, composite_names):\n        state_params[composite_type] = composite_name\n    state_params["states_chain"]',
+                   '    for composite_type, composite_name in zip(composite_types, composite_names):\n        state_params[composite_name] = composite_type\n    state_params["states_chain"]')]),
+    "k8 chain: states_chain written before the restriction loop": (
+        "chain", [('    for composite_type, composite_name in zip(composite_types, composite_names):\n        state_params[composite_type] = composite_name\n    state_params["states_chain"] = composite_types[-1]\n    state_exists',
+                   '    state_params["states_chain"] = composite_types[-1]\n    for composite_type, composite_name in zip(composite_types, composite_names):\n        state_params[composite_type] = composite_name\n    state_exists')]),
+    "o7 pop: states_chain restricted to the first type": (
+        "pop", [('        state_params["states_chain"] = composite_types[-1]\n\n        state_params["get_state"]',
+                 '        state_params["states_chain"] = composite_types[0]\n\n        state_params["get_state"]')]),
 }
 
 
@@ -110,7 +150,8 @@ def main(argv):
                 print(rows[-1], flush=True)
                 continue
             open(gen, "w").write(out)
-            target = "I2N.Lemmas.PolicyGenPush" if which in ("push", "pop") else "I2N.Lemmas.PolicyGen"
+            target = {"push": "I2N.Lemmas.PolicyGenPush", "pop": "I2N.Lemmas.PolicyGenPush",
+                      "chain": "I2N.Lemmas.PolicyGenChain"}.get(which, "I2N.Lemmas.PolicyGen")
             r = subprocess.run(["lake", "build", target], cwd=lean_dir, capture_output=True, text=True)
             if r.returncode == 0:
                 rows.append((name, "SURVIVES", f"{target} still builds"))
